@@ -231,6 +231,16 @@ def d2(cx: Cx, ob: Ob) -> None:
     s = cx.summary(lt, ob.id)
     me, other = ("param", lt.params[0].name), ("param", lt.params[1].name)
     for t, ctx in s.returns():
+        # `return NotImplemented` when the other operand is not a Reference at all: the protocol's way of saying
+        # "not mine" - outside the comparisons the property speaks about.  A test against a NARROWER class
+        # (self.__class__, a subclass) sends References down that path and is judged like any other return.
+        not_ref = [g for g in ctx.guards if g.kind == "guard" and g.b is False and op(g.a) == "call" and g.a[1] == ("builtin", "isinstance") and len(g.a[2]) == 2 and g.a[2][0] == other]
+        if not_ref and show(t).endswith("NotImplemented"):
+            ty = not_ref[0].a[2][1]
+            if op(ty) == "cls" and ty[1] == REF:
+                continue
+            ob.violate(lt.qualname, lt.where, f"__lt__ answers NotImplemented for every operand that is not an instance of `{show(ty)[:40]}`: a Reference of another class of the hierarchy (a base-class instance compared from a subclass) is refused, so sorting a mixed list raises TypeError depending on the order of its elements", witness="NamedReference(...) < Reference(...) raises TypeError", detail="narrow-type-guard")
+            continue
         ob.site(f"{lt.where} {lt.qualname}", show(t)[:90])
         if op(t) != "cmp" or t[1] != "<":
             ob.violate(lt.qualname, lt.where, f"__lt__ returns `{show(t)[:60]}`, not a `<` comparison", detail="operator")
